@@ -64,6 +64,7 @@ func c03Run(c *hx.Ctx) {
 	jlsRunSegments(c, 2*n)
 	jlsScans(c, n/2)
 	jlsGolomb(c, 5*n)
+	jlsReaderOps(c, 5*n)
 
 	// boundary cases first: the design's witness and its relatives
 	c03Check(c, jlsImage{W: 4, H: 1, C: 1, P: 12, S: []int{4095, 0, 4095, 0}, Kind: "witness"})
